@@ -633,12 +633,22 @@ pub struct WorkerLeavesCase {
     pub leaver: usize,
     /// the worker's connection is reset (true) or closed in an orderly way (false)
     pub reset: bool,
+    /// 0 = worker `leaver` leaves; 1 = instead, the CLIENT comes back on a fresh connection
+    /// under its identity while its old connection stays open and idle, and goes on there;
+    /// 2 = instead, worker `leaver` comes back on a fresh connection under its (announced)
+    /// identity while its old connection stays open and idle
+    #[serde(default)]
+    pub returns: u8,
 }
 
 pub fn worker_leaves_outcome(c: &WorkerLeavesCase) -> Outcome {
     let mut o = Outcome::new(hash_of(c));
     o.nontrivial = true;
-    o.class("worker-leaves-mid-run");
+    o.class(match c.returns {
+        1 => "client-comes-back-under-its-identity",
+        2 => "worker-comes-back-under-its-identity",
+        _ => "worker-leaves-mid-run",
+    });
     let c2 = c.clone();
     let (r, panics) = capture_panics(|| {
         run_sim(async move {
@@ -647,7 +657,7 @@ pub fn worker_leaves_outcome(c: &WorkerLeavesCase) -> Outcome {
             let mut sim = Sim::new();
             let front = sim.socket(Kind::Router, None);
             let back = sim.socket(Kind::Dealer, None);
-            let client = sim.link();
+            let mut client = sim.link();
             client.raw_handshake("DEALER", Some(b"cl"));
             let a = sim.attach(front, &client);
             if !matches!(sim.run(a).await, Ok(Some(Out::Attach(Ok(_))))) {
@@ -656,9 +666,10 @@ pub fn worker_leaves_outcome(c: &WorkerLeavesCase) -> Outcome {
             }
             let nw = c.workers.clamp(2, 4);
             let mut workers: Vec<(Link, usize, bool)> = vec![]; // link, echoed, gone
-            for _ in 0..nw {
+            for wi in 0..nw {
                 let l = sim.link();
-                l.raw_handshake("REP", None);
+                let wid = format!("w{}", wi).into_bytes();
+                l.raw_handshake("REP", if c.returns == 2 { Some(&wid[..]) } else { None });
                 let a = sim.attach(back, &l);
                 if !matches!(sim.run(a).await, Ok(Some(Out::Attach(Ok(_))))) {
                     fail!(f, "C15/setup", "worker handshake");
@@ -715,10 +726,40 @@ pub fn worker_leaves_outcome(c: &WorkerLeavesCase) -> Outcome {
                 fail!(f, "C15/back-to-front-reply-lost", "{} requests, {} replies before any worker left", sent, got);
                 return f;
             }
-            // the worker leaves while nothing is in flight; the proxy gets to see it
             let lv = c.leaver % nw;
-            workers[lv].0.to_lib.end_after_all(if c.reset { crate::pipe::ReadEnd::Err(std::io::ErrorKind::ConnectionReset) } else { crate::pipe::ReadEnd::Eof });
-            workers[lv].2 = true;
+            let mut old_client: Option<(Link, usize)> = None;
+            match c.returns {
+                1 => {
+                    // the client restarts: same identity, fresh connection, old one left idle
+                    let nl = sim.link();
+                    nl.raw_handshake("DEALER", Some(b"cl"));
+                    let a = sim.attach(front, &nl);
+                    if !matches!(sim.run(a).await, Ok(Some(Out::Attach(Ok(_))))) {
+                        fail!(f, "C15/returning-client-not-admitted", "a client that comes back under its identity");
+                        return f;
+                    }
+                    let old = std::mem::replace(&mut client, nl);
+                    let n_old = old.lib_messages().map(|m| m.len()).unwrap_or(0);
+                    old_client = Some((old, n_old));
+                }
+                2 => {
+                    let nl = sim.link();
+                    let wid = format!("w{}", lv).into_bytes();
+                    nl.raw_handshake("REP", Some(&wid[..]));
+                    let a = sim.attach(back, &nl);
+                    if !matches!(sim.run(a).await, Ok(Some(Out::Attach(Ok(_))))) {
+                        fail!(f, "C15/returning-worker-not-admitted", "a worker that comes back under its identity");
+                        return f;
+                    }
+                    workers[lv].2 = true;
+                    workers.push((nl, 0, false));
+                }
+                _ => {
+                    // the worker leaves while nothing is in flight; the proxy gets to see it
+                    workers[lv].0.to_lib.end_after_all(if c.reset { crate::pipe::ReadEnd::Err(std::io::ErrorKind::ConnectionReset) } else { crate::pipe::ReadEnd::Eof });
+                    workers[lv].2 = true;
+                }
+            }
             pump!();
             let leaver_wire = workers[lv].0.lib_traffic_len();
             for _ in 0..c.after {
@@ -734,12 +775,19 @@ pub fn worker_leaves_outcome(c: &WorkerLeavesCase) -> Outcome {
                 }
                 fail!(f, "C15/proxy-terminated", "proxy() returned after a worker closed its connection: {:?}", sim.out(proxy));
             }
-            if workers[lv].0.lib_traffic_len() != leaver_wire {
+            if let Some((old, n_old)) = &old_client {
+                let n_now = old.lib_messages().map(|m| m.len()).unwrap_or(0);
+                if n_now != *n_old {
+                    fail!(f, "C15/reply-sent-to-the-connection-a-returning-client-replaced", "{} replies arrived on the old connection of a client that had come back under its identity", n_now - n_old);
+                }
+            }
+            if c.returns != 1 && workers[lv].0.lib_traffic_len() != leaver_wire {
                 fail!(f, "C15/forwarded-to-a-departed-worker", "{} bytes were written to the worker that had left (and whose departure the back socket had been shown) - those requests are lost", workers[lv].0.lib_traffic_len() - leaver_wire);
             }
             match client.lib_messages() {
                 Ok(m) => {
-                    let want: Vec<Frames> = (0..sent).map(|i| vec![vec![], format!("req-{}", i).into_bytes(), b"!".to_vec()]).collect();
+                    let first = if c.returns == 1 { c.before } else { 0 };
+                    let want: Vec<Frames> = (first..sent).map(|i| vec![vec![], format!("req-{}", i).into_bytes(), b"!".to_vec()]).collect();
                     let mut g = m.clone();
                     let mut w = want.clone();
                     g.sort();
@@ -772,7 +820,11 @@ pub fn run(ctx: &Ctx) -> (Report, PropertyMeta) {
             for leaver in 0..workers {
                 for reset in [false, true] {
                     for (before, after) in [(0usize, 4usize), (1, 5), (workers, 2 * workers + 1), (2 * workers + 1, 9)] {
-                        wc.push(WorkerLeavesCase { workers, before, after, leaver, reset });
+                        wc.push(WorkerLeavesCase { workers, before, after, leaver, reset, returns: 0 });
+                        if !reset {
+                            wc.push(WorkerLeavesCase { workers, before, after, leaver, reset, returns: 1 });
+                            wc.push(WorkerLeavesCase { workers, before, after, leaver, reset, returns: 2 });
+                        }
                     }
                 }
             }
